@@ -146,6 +146,8 @@ static int as_escaped_char(int c, int chr)
         default:
             if(chr && c == '\'')
                 return '\'';
+            else if(chr && c == '\0')
+                return '0'; // (a raw NUL would end the text)
             else if(!chr && c == '"')
                 return '"';
             else return -1;
@@ -1145,7 +1147,9 @@ const char* rtosc_skip_next_printed_arg(const char* src, int* skipped,
                 else
                 {
                     ++src; // type 2 or 3
-                    esc = get_escaped_char(src[1], 1);
+                    // ('\0' is the NUL char, which get_escaped_char
+                    //  cannot tell from "no such escape")
+                    esc = (src[1] == '0') ? 1 : get_escaped_char(src[1], 1);
                 }
             }
             // if the last char was no single quote,
@@ -1609,7 +1613,11 @@ size_t rtosc_scan_arg_val(const char* src,
             if(*++src == '\\')
             {
                 if(src[2] && !isspace(src[2])) // escaped and 4 chars
-                    arg->val.i = get_escaped_char(*++src, true);
+                {
+                    ++src;
+                    arg->val.i = (*src == '0') ? 0
+                                               : get_escaped_char(*src, true);
+                }
                 else // escaped, but only 3 chars: type 4
                     arg->val.i = '\\';
             }
